@@ -52,7 +52,7 @@ theorem lk_stepPlayer (cfg : Cfg) (s s' : State) (i : Nat) (h : stepPlayer cfg s
       intro j hj hne e; subst e
       have := l3 j hj; rw [hpc] at this; simp at this; exact hne this
     simp only at h
-    cases hpcv : p.pc <;> simp only [hpcv] at h <;> (try split at h) <;> (try cases h) <;>
+    cases hpcv : p.pc <;> simp only [hpcv] at h <;> (try split at h) <;> (try cases h) <;> (try split at h) <;> (try cases h) <;>
     (refine ⟨?_, ?_, ?_, ?_⟩
      · simpa [setP] using l1
      · simp_all [setP]
